@@ -64,4 +64,7 @@ try:
         print('%-45s %s\n    %s' % (m['name'], res, desc), flush=True)
 finally:
     shutil.rmtree(scratch, ignore_errors=True)
-print(json.dumps([{'mutation': a, 'result': b, 'shrunk': c} for a, b, c in results], indent=1))
+out = [{'mutation': a, 'result': b, 'shrunk': c} for a, b, c in results]
+print(json.dumps(out, indent=1))
+os.makedirs(os.path.join(ROOT, 'tools', 'mutations', 'results'), exist_ok=True)
+json.dump(out, open(os.path.join(ROOT, 'tools', 'mutations', 'results', pid + '.json'), 'w'), indent=1)
